@@ -191,7 +191,7 @@ fn cell(entry: usize, sig: i32, ctx: usize, e: &mut Emit) {
 /// The kernel's (and libc's) verdict on installing a handler for each number, obtained independently.
 fn os_verdicts(sigs: &[i32]) -> Vec<bool> {
     let sigs2 = sigs.to_vec();
-    let p = run_cells(1, 1, Duration::from_secs(10), move |_, e| {
+    let p = run_cells(1, 1, Duration::from_secs(30), move |_, e| {
         extern "C" fn h(_: libc::c_int) {}
         for &s in &sigs2 {
             let ok = unsafe {
@@ -238,7 +238,7 @@ pub fn run(tier: Tier) -> BResult {
         }
     }
     let cells_ref = cells.clone();
-    let probes = run_cells(cells.len(), 16, Duration::from_secs(10), move |i, e| {
+    let probes = run_cells(cells.len(), 16, Duration::from_secs(30), move |i, e| {
         let (en, s, c, _) = cells_ref[i];
         cell(en, s, c, e);
     });
